@@ -375,7 +375,12 @@ class Topology(ABC):
         :param name:
         :return:
         """
-        self.graph_model.remove_network_link(node_id=self._get_link_by_name(name=name).node_id)
+        link = self._get_link_by_name(name=name)
+        # a link created by connecting an interface to a network service (or by peering services) goes with that
+        # connection; removing it alone would leave a service port without a peer
+        if any(i.type == InterfaceType.ServicePort for i in link.interface_list):
+            raise TopologyException(f'Link {name} connects a network service port, use disconnect_interface() or unpeer()')
+        self.graph_model.remove_network_link(node_id=link.node_id)
 
     def add_network_service(self, *, name: str, node_id: str = None, nstype: ServiceType,
                             interfaces: List[Interface] = None, technology: str = None, **kwargs) -> NetworkService:
